@@ -121,6 +121,7 @@ class Ctx(object):
         self.prop = prop
         self.tier = tier
         self.config = config
+        apply_aliases(facts)
         self.fns = {}
         for fn in facts['fns']:
             self.fns[S.norm_path(fn['path'])] = fn
@@ -248,6 +249,68 @@ class Ctx(object):
             if imp.get('trait') == trait and (self_adt is None or imp.get('self_adt') == self_adt):
                 out.append(imp)
         return out
+
+
+def apply_aliases(facts):
+    """A function of the oracle vocabulary that is gone, while exactly one function unknown to the vocabulary
+    has its signature in the same top-level module, was renamed or moved: read the new one under the old name
+    (its body is judged by the same rules as before). Done once per fact set, in place."""
+    meta = facts.setdefault('meta', {})
+    if meta.get('aliases') is not None:
+        return meta['aliases']
+    meta['aliases'] = {}
+    try:
+        with open(os.path.join(VERIF, 'spec', 'vocabulary_sigs.json')) as fh:
+            sigs = json.load(fh)
+    except (IOError, ValueError):
+        return {}
+    by = {}
+    for fn in facts['fns']:
+        by[S.norm_path(fn['path'])] = fn
+    missing = [m for m in sigs if m not in by]
+    if not missing:
+        return {}
+    new = [p for p, fn in by.items() if p not in sigs and fn.get('dk') in ('Fn', 'AssocFn') and 'hir' in fn and not fn.get('mac') and not fn.get('cfg_test')]
+    def sig(fn):
+        return (tuple(fn.get('inputs') or ()), fn.get('output'), fn.get('impl_trait'))
+    cand = {}
+    for m in missing:
+        want = (tuple(sigs[m].get('inputs') or ()), sigs[m].get('output'), sigs[m].get('impl_trait'))
+        cs = [n for n in new if sig(by[n]) == want and n.split('::')[0] == m.split('::')[0]]
+        if len(cs) == 1:
+            cand[m] = cs[0]
+    used = {}
+    for m, n in cand.items():
+        used.setdefault(n, []).append(m)
+    ren = {n: ms[0] for n, ms in used.items() if len(ms) == 1}
+    if not ren:
+        return {}
+
+    def fix(s):
+        n = S.norm_path(s)
+        if n in ren:
+            return ren[n]
+        for old, newp in ren.items():
+            if n.startswith(old + '::'):
+                return newp + n[len(old):]
+        return s
+
+    def walk(o):
+        if isinstance(o, dict):
+            for k, v in o.items():
+                if isinstance(v, str):
+                    if k in ('path', 'resolved', 'callee', 'parent', 'def', 'decl', 'target', 'fn') and '::' in v:
+                        o[k] = fix(v)
+                else:
+                    walk(v)
+        elif isinstance(o, list):
+            for i, v in enumerate(o):
+                if isinstance(v, str):
+                    continue
+                walk(v)
+    walk(facts['fns'])
+    meta['aliases'] = ren
+    return ren
 
 
 def load_known():
